@@ -73,6 +73,10 @@ pub struct ForeignSpec {
     /// not contain (common in real-world packages)
     #[serde(default)]
     pub stale_validation: Vec<(String, String)>,
+    /// this string's pool entry is written with refcount 65535 (over-counted
+    /// to saturation), whatever the number of cells that use it
+    #[serde(default)]
+    pub saturate: Option<String>,
 }
 
 fn strip_for_no_validation(c: &ColSpec) -> ColSpec {
@@ -92,7 +96,7 @@ struct Catalog {
 
 impl ForeignSpec {
     pub fn exact_refcounts(&self) -> bool {
-        self.overcount == 0
+        self.overcount == 0 && self.saturate.is_none()
     }
 
     fn type_word(&self, t: &FTable, c: &ColSpec) -> i32 {
@@ -164,6 +168,7 @@ impl ForeignSpec {
             sig_ex: false,
             docsum: self.docsummary,
             pool_slots: if self.long_refs { None } else { Some(65535) },
+            saturated: self.saturate.iter().cloned().collect(),
         };
         let catalog_sorted = !self.shuffle_catalog;
         let mk = |cols: Vec<ColSpec>, rows: Vec<Vec<Val>>| TableM {
@@ -377,6 +382,9 @@ impl ForeignSpec {
                 Some(s) => {
                     let b = crate::cp::encode_strict(cp, s).ok_or_else(|| format!("{:?} not encodable in {}", s, cp))?;
                     let mut rc = *n;
+                    if self.saturate.as_deref() == Some(*s) {
+                        rc = 0xffff;
+                    }
                     if over > 0 && rc < 0xff00 {
                         rc += 1 + (over % 3);
                         over -= 1;
